@@ -496,9 +496,14 @@ func Exec(cfg Config, c *explore.Ctx, maxOps int, env *Env) (res *Result) {
 			}
 			var all []byte
 			for i, p := range parts {
-				if _, err := ws.Write(p); err != nil {
+				// the Writer gets its own copy; the copy must come back unchanged
+				buf := append([]byte{}, p...)
+				if _, err := ws.Write(buf); err != nil {
 					in.fail(err, "stream Write")
 					return res
+				}
+				if !bytes.Equal(buf, p) {
+					res.Args = append(res.Args, Arg{What: "stream Write data", Live: pdf.String(buf), Before: pdf.String(append([]byte{}, p...))})
 				}
 				all = append(all, p...)
 				if putInside && i == 0 {
